@@ -121,7 +121,9 @@ def main():
     ctx = Ctx(); ctx.pid, ctx.tier, ctx.seed, ctx.rng, ctx.mod = pid, tier, seed, rng, mod
     ctx.mod_env = getattr(mod, "ENV", None); ctx.crash_stderr = ""
     known = load_known()
-    ev = {"property_id": pid, "tier": tier, "seed": seed, "level": getattr(mod, "LEVEL", "proof"),
+    level = getattr(mod, "LEVEL", "proof")
+    if level == "proof" and not getattr(mod, "THEOREMS", []): level = "exploration"   # nothing proved yet: do not claim it
+    ev = {"property_id": pid, "tier": tier, "seed": seed, "level": level,
           "coverage": {}, "assumptions": list(getattr(mod, "ASSUMPTIONS", [])), "wall_s": 0.0, "violations": 0}
     cov = ev["coverage"]
     violations = []      # (description, replay_path, has_input)
